@@ -286,6 +286,16 @@ def run_real(kind):
             pass
         except TimeoutException:
             problems.append('closed connection timed out instead of raising')
+        # ... whatever the exception flag: a connection that is not open is a programming error, not silence
+        for flag in (False, True):
+            t0 = time.monotonic()
+            try:
+                got = conn.wait_frame(timeout=0.05, exception=flag)
+                problems.append('wait_frame(timeout=0.05, exception=%s) on a connection that was never opened returned %r after %.3f s instead of raising' % (flag, got, time.monotonic() - t0))
+            except RuntimeError:
+                pass
+            except TimeoutException:
+                problems.append('never-opened connection timed out instead of raising (exception=%s)' % flag)
         conn.open()
         frames = [bytes([i, i + 1, i + 2]) for i in range(50)]
         for f in frames:
@@ -342,6 +352,14 @@ def run_real(kind):
                 problems.append('after the peer disconnected a timeout of %.2f s was given up after %.4f s' % (tmo, time.monotonic() - t0))
         t0 = time.monotonic()
         conn.close()
+        for flag in (False, True):
+            try:
+                got = conn.wait_frame(timeout=0.05, exception=flag)
+                problems.append('wait_frame(exception=%s) on a closed connection returned %r instead of raising' % (flag, got))
+            except RuntimeError:
+                pass
+            except TimeoutException:
+                problems.append('closed connection timed out instead of raising (exception=%s)' % flag)
         if conn.rxthread is not None and conn.rxthread.is_alive():
             problems.append('receiver thread alive after close')
         if time.monotonic() - t0 > 10.0:
@@ -352,6 +370,8 @@ def run_real(kind):
         except Exception:
             pass
     problems += run_real_blocking(typ)
+    if kind == 0:
+        problems += run_queue_closed()
     problems += run_real_late_consumer(typ, False)
     problems += run_real_late_consumer(typ, True)
     return problems
@@ -405,6 +425,33 @@ def run_real_late_consumer(typ, consume):
                 x.close()
             except Exception:
                 pass
+    return problems
+
+
+def run_queue_closed():
+    """QueueConnection: not open -> RuntimeError whatever the exception flag; open and empty -> the timeout is honoured, None / TimeoutException"""
+    from udsoncan.connections import QueueConnection
+    from udsoncan.exceptions import TimeoutException
+    problems = []
+    conn = QueueConnection(name='verif')
+    for phase in ('never opened', 'closed', 'closed again after a reopen'):
+        if phase == 'closed':
+            conn.open()
+            conn.close()
+        elif phase.startswith('closed again'):
+            conn.open()
+            t0 = time.monotonic()
+            if conn.wait_frame(timeout=0.05, exception=False) is not None or time.monotonic() - t0 < 0.048:
+                problems.append('open empty QueueConnection: wait_frame(timeout=0.05, exception=False) did not wait / returned a frame')
+            conn.close()
+        for flag in (False, True):
+            try:
+                got = conn.wait_frame(timeout=0.05, exception=flag)
+                problems.append('QueueConnection %s: wait_frame(exception=%s) returned %r instead of raising' % (phase, flag, got))
+            except RuntimeError:
+                pass
+            except TimeoutException:
+                problems.append('QueueConnection %s: timed out instead of raising (exception=%s)' % (phase, flag))
     return problems
 
 
